@@ -82,6 +82,11 @@ func GenBinKeys(t *rapid.T) []string {
 // CopyPiece added to a create split size marks a piece that is written with io.Copy.
 const CopyPiece = 1 << 24
 
+// GenCancelClose: now and then the context a file was created with is cancelled before the file is closed.
+func GenCancelClose(t *rapid.T, via string) bool {
+	return via == "create" && rapid.IntRange(0, 4).Draw(t, "cancelBeforeClose") == 0
+}
+
 func GenVia(t *rapid.T, length int) (string, []int) {
 	switch rapid.IntRange(0, 5).Draw(t, "via") {
 	case 0, 1, 2:
